@@ -391,6 +391,14 @@ def deliver(world, t, chunk):
     world.reactor.iterate()
 
 
+def deliver_burst(world, t, chunks):
+    """Several reads handed to the protocol within ONE loop iteration (uvloop, TLS and proactor transports do this;
+    the Protocol contract allows data_received() any number of times between callbacks)."""
+    for c in chunks:
+        world.reactor.add_io(t._read_ready, c)
+    world.reactor.iterate()
+
+
 def peer_fin(world, t):
     world.reactor.add_io(t._read_eof)
     world.reactor.iterate()
